@@ -543,3 +543,59 @@ def r18_computed_field(ctx, rule='R18c'):
             declared = fold_function(gt.node, dict(zip(gt.params, [[], [], op])))
             run.check(declared == 'any', rule, gt.where, gt.qualname, 'constant without source -> ' + str(declared),
                       'a constant computed field must be declared "any" (its value is whatever the user passes)')
+
+
+TS_TYPES = ['integer', 'number', 'string', 'boolean', 'date', 'datetime', 'time', 'array', 'object', 'any']
+
+
+def r18_reuse_guard(ctx, rule='R18r'):
+    """join: when an aggregate lands on a field the target already declares, the existing declaration is kept; the guard that
+    admits this must reject every pair (existing type, aggregate type) in which the aggregate type is not <= the existing one."""
+    from sa.consteval import UNKNOWN, ev
+    run = ctx.run
+    run.rule(rule, 'REUSE-GUARD(join): reusing an existing target field for an aggregate is admitted only when the aggregate\'s type is '
+                   '<= the type the field already declares (evaluated by partially evaluating the guard over all type pairs)')
+    f = ctx.repo.func('dataflows.processors.join:join_aux.process_target_resource')
+    m = f.module
+    guards = [n for n in ast.walk(f.node) if isinstance(n, ast.Assert) and 'existing_field' in u(n.test) and 'data_type' in u(n.test)]
+    if not guards:
+        # an if ... raise form
+        guards = [n for n in ast.walk(f.node) if isinstance(n, ast.If) and 'existing_field' in u(n.test) and 'data_type' in u(n.test)
+                  and any(isinstance(x, ast.Raise) for x in n.body)]
+    if len(guards) != 1:
+        run.fail(rule, f.where, f.qualname, 'guard on (existing type, aggregate type)',
+                 'an existing target field is reused for an aggregate without comparing their types')
+        return
+    g = guards[0]
+    test = g.test
+    negate = isinstance(g, ast.If)      # `if <bad>: raise`
+    funcs = {}
+    consts = {}
+    for nm, d in m.defs.items():
+        last = d[-1]
+        if isinstance(last, ast.FunctionDef):
+            funcs[nm] = last
+        elif isinstance(last, tuple):
+            try:
+                consts[nm] = ev(last[1], {})
+            except Exception:
+                pass
+    bad = []
+    unknown = 0
+    for e in TS_TYPES:
+        for d_ in TS_TYPES:
+            env = dict(consts)
+            env.update({'existing_field': {'type': e, 'name': 'x'}, 'data_type': d_, 'name': 'x', '__funcs__': funcs, '__consts__': consts})
+            try:
+                ok = bool(ev(test, env))
+            except Exception:
+                unknown += 1
+                continue
+            admitted = (not ok) if negate else ok
+            if admitted and not leq(d_, e):
+                bad.append((e, d_))
+    if unknown:
+        raise AnalysisError('join reuse guard %s could not be evaluated for %d type pairs' % (u(test), unknown))
+    run.check(not bad, rule, where(ctx.repo, g), f.qualname, 'guard ' + u(test),
+              'the guard admits reusing a field declared %s for an aggregate of type %s (and %d more pairs): the rows then carry '
+              'values the emitted schema rejects' % (bad[0] + (len(bad) - 1,) if bad else ('', '', 0)))
